@@ -1,6 +1,238 @@
 import TantivyModel.Driver.Proto
+import TantivyModel.Model.Writer
+/-!
+Line protocol of the C02 model.  Documents are the harness's unique ids; a delete query travels
+as its extension over the ids of the history (`-` = matches nothing).
+
+History tokens (no blanks inside a token, optional `@n` suffix = opstamp the real call returned):
+  `a<id>`            add_document
+  `d<ids>`           delete_term / delete_query
+  `b<item;item…>`    run(batch)  (items `a<id>` / `d<ids>`; `b-` = empty batch)
+  `x`                delete_all_documents
+  `c` / `c<n>`       commit (with payload n)
+  `r`                rollback / abort / drop + reopen
+  `p`                prepare_commit whose PreparedCommit is dropped
+
+  `C02 replay tok…`            -> `committed=<ids>;pending=<ids>;last=<n>;payload=<n|->`  (specification)
+  `C02 impl <workers> <seed> tok…` -> the implementation-level model under a schedule derived from
+                                  `seed`, ticking the stamper up to the observed opstamps:
+                                  `pub=<ids>;meta=<n>;payload=<n|->;cop=<n>;ret=<n,…>;segs=<k>;merges=<k>`
+  `C02 clean tok…`             -> `clean` or `dirty:<i,…>;firstdel:<i,…>` (indices of the calls that violate
+                                  a hypothesis of `C02_commit_refines_replay_partial`)
+-/
 namespace TantivyModel.Driver.C02
-/-- stub: the model for C02 is not built yet -/
+open TantivyModel TantivyModel.Proto TantivyModel.WriterSpec TantivyModel.Writer
+
+def sortNat (l : List Nat) : List Nat := l.mergeSort (fun a b => decide (a ≤ b))
+
+def extQuery (ext : List Nat) : Nat → Bool := fun d => ext.contains d
+
+def parseItem (t : String) : Option (Item Nat) :=
+  match t.toList with
+  | 'a' :: r => (String.ofList r).toNat?.map Item.add
+  | 'd' :: r => (natList (String.ofList r)).map (fun e => Item.del (extQuery e))
+  | _ => none
+
+/-- token -> (op, observed opstamp) -/
+def parseTok (t : String) : Option (Op Nat × Option Nat) :=
+  let (body, obs) : String × Option (Option Nat) :=
+    match t.splitOn "@" with
+    | [b] => (b, some none)
+    | [b, o] => (b, o.toNat?.map some)
+    | _ => (t, none)
+  match obs with
+  | none => none
+  | some obs =>
+    let op : Option (Op Nat) :=
+      match body.toList with
+      | ['x'] => some .deleteAll
+      | ['r'] => some .rollback
+      | ['p'] => some .prepare
+      | ['c'] => some (.commit none)
+      | 'c' :: r => (String.ofList r).toNat?.map (fun n => Op.commit (some n))
+      | 'a' :: r => (String.ofList r).toNat?.map Op.add
+      | 'd' :: r => (natList (String.ofList r)).map (fun e => Op.del (extQuery e))
+      | ['b', '-'] => some (.batch [])
+      | 'b' :: r => (((String.ofList r).splitOn ";").mapM parseItem).map Op.batch
+      | _ => none
+    op.map (fun o => (o, obs))
+
+def showOpt : Option Nat → String
+  | none => "-"
+  | some n => toString n
+
+/-- number of stamps an API call draws before the one it returns -/
+def stampsBefore : Op Nat → Nat
+  | .batch items => items.length
+  | _ => 0
+
+def opToEvent : Op Nat → Event Nat
+  | .add d => .add d
+  | .del q => .del q
+  | .batch items => .batch items
+  | .deleteAll => .deleteAll
+  | .commit p => .commit p
+  | .rollback => .rollback
+  | .prepare => .prepare
+
+/-- where a history violates the hypotheses of `C02_commit_refines_replay_partial`:
+`(dirty delete_all calls, deletes that are the first stamped operation of a re-created writer)`.
+Scan state: operations pending in the current transaction / a delete issued since the writer was
+created / no operation stamped yet since the writer was re-created. -/
+def hypViolations (h : List (Op Nat)) : List Nat × List Nat :=
+  let rec go (i : Nat) (txDirty sessDel fresh : Bool) : List (Op Nat) → List Nat × List Nat
+    | [] => ([], [])
+    | op :: rest =>
+      match op with
+      | .add _ => go (i + 1) true sessDel false rest
+      | .del _ =>
+        let r := go (i + 1) true true false rest
+        (r.1, (if fresh then [i] else []) ++ r.2)
+      | .batch items =>
+        let firstDel := match items with | .del _ :: _ => true | _ => false
+        let r := go (i + 1) (txDirty || !items.isEmpty)
+          (sessDel || items.any (fun it => match it with | .del _ => true | _ => false)) false rest
+        (r.1, (if fresh && firstDel then [i] else []) ++ r.2)
+      | .deleteAll =>
+        let r := go (i + 1) txDirty sessDel false rest
+        ((if txDirty || sessDel then [i] else []) ++ r.1, r.2)
+      | .commit _ => go (i + 1) false sessDel false rest
+      | .rollback => go (i + 1) false false true rest
+      | .prepare => go (i + 1) txDirty sessDel false rest
+  go 0 false false false h
+
+/-! ### a scheduler for the internal events (driver only; the theorems quantify over all) -/
+
+structure Sched where
+  st : WState Nat
+  rng : Nat
+
+def nextRng (r : Nat) : Nat := (r * 6364136223846793005 + 1442695040888963407) % 18446744073709551616
+
+def Sched.draw (sc : Sched) (n : Nat) : Nat × Sched :=
+  let r := nextRng sc.rng
+  ((r / 4294967296) % (if n = 0 then 1 else n), { sc with rng := r })
+
+def Sched.fire (sc : Sched) (e : Event Nat) : Sched :=
+  match step sc.st e with
+  | some (s', _) => { sc with st := s' }
+  | none => sc
+
+/-- the hypothesis `cleanState` of `C02_commit_refines_replay_partial`, decided on a model state -/
+def cleanStateB (s : WState Nat) : Bool :=
+  s.log.isEmpty && s.channel.isEmpty && s.inflight.isEmpty && s.uncommitted.isEmpty
+    && s.workers.all (fun w => w.seg.isNone)
+
+def busyWorkers (s : WState Nat) : List Nat :=
+  (List.range s.workers.length).filter (fun w => match s.workers[w]? with
+    | some wk => wk.seg.isSome | none => false)
+
+/-- a few random internal steps -/
+def Sched.wander (sc : Sched) (budget : Nat) : Nat → Sched
+  | 0 => sc
+  | fuel + 1 =>
+    let before := sc.st.stamper
+    let (k, sc) := sc.draw 12
+    let sc :=
+      match k with
+      | 0 | 1 | 2 | 3 =>
+        let (w, sc) := sc.draw sc.st.workers.length
+        sc.fire (.recv w)
+      | 4 =>
+        let (w, sc) := sc.draw sc.st.workers.length
+        sc.fire (.cut w)
+      | 5 | 6 => sc.fire .register
+      | 7 =>
+        -- start a merge of a random sub-list of one register
+        let (which, sc) := sc.draw 2
+        -- a merge of uncommitted segments draws a stamp: only within the observed slack
+        let which := if budget = 0 then 1 else which
+        let reg : List (Seg Nat) := if which = 0 then sc.st.uncommitted else sc.st.committed
+        let (mask, sc) := sc.draw 256
+        let idxs : List (Nat × Nat) := (reg.map (fun (sg : Seg Nat) => sg.id)).zipIdx
+        let ids : List Nat := (idxs.filter (fun (p : Nat × Nat) => (mask / 2 ^ (p.2 % 8)) % 2 = 1)).map (fun (p : Nat × Nat) => p.1)
+        sc.fire (.mergeStart ids true)
+      | 8 =>
+        let (j, sc) := sc.draw sc.st.merges.length
+        sc.fire (.mergeEnd j)
+      | 9 => sc.fire .flush
+      | _ => sc
+    sc.wander (budget - (sc.st.stamper - before)) fuel
+
+/-- what `prepare_commit` forces: every batch received, every segment cut and registered -/
+def Sched.drain (sc : Sched) : Nat → Sched
+  | 0 => sc
+  | fuel + 1 =>
+    if !sc.st.channel.isEmpty then
+      let (w, sc) := sc.draw sc.st.workers.length
+      -- now and then a worker cuts before taking more
+      let (c, sc) := sc.draw 4
+      let sc := if c = 0 then sc.fire (.cut w) else sc
+      (sc.fire (.recv w)).drain fuel
+    else match busyWorkers sc.st with
+      | w :: _ => (sc.fire (.cut w)).drain fuel
+      | [] => if !sc.st.inflight.isEmpty then (sc.fire .register).drain fuel else sc
+
+def Sched.ticks (sc : Sched) : Nat → Sched
+  | 0 => sc
+  | n + 1 => (sc.fire .tick).ticks n
+
+/-- run the tokens; returns the final scheduler state and the returned opstamps, or an error -/
+def implRun (sc : Sched) : List (Op Nat × Option Nat) → Nat → List Nat → Except String (Sched × List Nat)
+  | [], _, rets => .ok (sc, rets.reverse)
+  | (op, obs) :: rest, i, rets =>
+    -- stamps the internal events may draw before this call: the observed slack
+    let slack : Nat := match obs, op with
+      | some _, .deleteAll => 0
+      | some _, .rollback => 0
+      | some o, _ => (o - stampsBefore op) - sc.st.stamper
+      | none, .deleteAll => 0
+      | none, _ => 2
+    let sc := match op with
+      | .commit _ | .prepare => (sc.wander slack 3).drain 100000
+      | _ => sc.wander slack 2
+    -- tick the stamper up to the observed opstamp
+    let sc? : Option Sched :=
+      match obs, op with
+      | some _, .deleteAll => some sc
+      | some _, .rollback => some sc
+      | some o, _ =>
+        let want := o - stampsBefore op
+        if o < stampsBefore op || want < sc.st.stamper then none else some (sc.ticks (want - sc.st.stamper))
+      | none, _ => some sc
+    match sc? with
+    | none => .error s!"mismatch:{i}:model-stamper={sc.st.stamper}"
+    | some sc =>
+      -- the state-level hypothesis of the theorem, where the history-level rule says it holds
+      if (match op with | .deleteAll => !cleanStateB sc.st | _ => false) then .error s!"hyp-violated:{i}" else
+      match step sc.st (opToEvent op) with
+      | none => .error s!"disabled:{i}"
+      | some (s', ret) => implRun { sc with st := s' } rest (i + 1) (ret :: rets)
+
 def handle : List String → String
+  | "replay" :: toks =>
+    match toks.mapM parseTok with
+    | none => "bad-op"
+    | some ops =>
+      let s := replay (ops.map (·.1))
+      s!"committed={showNatList (sortNat s.committed)};pending={showNatList (sortNat s.pending)};last={s.lastCommit};payload={showOpt s.payload}"
+  | "clean" :: toks =>
+    match toks.mapM parseTok with
+    | none => "bad-op"
+    | some ops =>
+      match hypViolations (ops.map (·.1)) with
+      | ([], []) => "clean"
+      | (l, f) => "dirty:" ++ showNatList l ++ ";firstdel:" ++ showNatList f
+  | "impl" :: nw :: seed :: toks =>
+    match nw.toNat?, seed.toNat?, toks.mapM parseTok with
+    | some nw, some seed, some ops =>
+      if nw = 0 || nw > 8 then "bad-op" else
+      match implRun { st := WState.init nw, rng := seed } ops 0 [] with
+      | .error e => e
+      | .ok (sc, rets) =>
+        let s := sc.st
+        s!"pub={showNatList (sortNat (published s))};meta={s.metas.opstamp};payload={showOpt s.metas.payload};cop={commitOpstamp s};ret={showNatList rets};segs={s.metas.segs.length};merges={s.merges.length}"
+    | _, _, _ => "bad-op"
   | _ => "bad-op"
+
 end TantivyModel.Driver.C02
